@@ -71,8 +71,10 @@ def simulated(hid, inst, kind, nagents, r):
     rec = ProtocolRecorder([n.name for n in cg.nodes]).install()
     try:
         w = OrchWorld(dcop, algo, cg, dist, infinity=INFV, seed=r.randrange(10 ** 6))
-        w.boot_all(order=r, lazy=r.random() < 0.5)
-        stuck = w.solve()
+        # an agent that hosts nothing may come up late: after the orchestrator has handled the run request
+        late = [a for a in sorted(dcop.agents)[-spare:] if a not in dist.agents or not dist.computations_hosted(a)][:1] if spare and r.random() < 0.7 else []
+        w.boot_all(order=r, lazy=r.random() < 0.5, hold=late)
+        stuck = w.solve(late=late)
     finally:
         rec.uninstall()
     if w.exc:
@@ -173,7 +175,7 @@ def run(tier):
             v.violation({"clause": clause, "mode": m["mode"], "dist": m["dist"]},
                         "%s (%s, %s distribution on %d agents, shape %s): status %s, assignment %s, reported %s, stuck %r" % (
                             clause, m["mode"], m["dist"], m["agents"], m["inst"]["shape"], rec["status"], rec["asg"], rec["reported"], rec["stuck"]),
-                        {"inst": m["inst"], "meta": {k: x for k, x in m.items() if k not in ("inst", "proto")}, "outcome": rec, "protocol_events": m["proto"]["ev"]})
+                        {"inst": m["inst"], "meta": {k: x for k, x in m.items() if k not in ("inst", "proto")}, "outcome": rec, "protocol": m["proto"]})
         if not verdicts[rec["id"]] and len(rec["inst"]["vars"]) >= 4:
             v.sample({"shape": m["inst"]["shape"], "mode": m["mode"], "dist": m["dist"], "agents": m["agents"], "outcome": {k: rec[k] for k in ("status", "asg", "reported", "finished")}}, cap=3)
     v.cov["runs_by_mode_and_distribution"] = modes
